@@ -219,7 +219,7 @@ P_GENERAL = dict()
 P_TOPICS = dict(op_w={"register": 2, "append": 12, "import": 4, "remove": 4, "tick": 1, "gc": 3, "reopen": 1, "badctx": 0.2},
                 n_topics=9, p_nul=0.08, p_nul_head=0.3, p_import_collide=0.15)
 P_TTL = dict(op_w={"register": 1.5, "append": 12, "import": 2, "remove": 2, "tick": 5, "gc": 6, "reopen": 1, "badctx": 0.1},
-             n_topics=4, ttl_w={"-": 1, "forever": 1, "ephemeral": 2, "time": 5, "head": 5}, p_probe=0.3, w_lazyread=4)
+             n_topics=4, ttl_w={"-": 1, "forever": 1, "ephemeral": 2, "time": 5, "head": 5}, p_probe=0.3, w_lazyread=4, w_headburst=1.5)
 P_EXPORT = dict(op_w={"register": 3, "append": 12, "import": 2, "remove": 3, "tick": 0.5, "gc": 2, "reopen": 0.5, "badctx": 0},
                 n_topics=5, p_nul=0.0, p_import_collide=0.0, p_import_reg=0.3,
                 ttl_w={"-": 3, "forever": 2, "ephemeral": 1, "head": 3})
@@ -896,7 +896,7 @@ def c13_run(ctx):
             statuses[s_] = statuses.get(s_, 0) + 1
         for d in r["dropped"]:
             ctx.violation(f"request received no HTTP response (connection dropped): `{d['request'][:200]}`",
-                          dict(engine="H", seed=sd, n_requests=n_req, request_index=d["n"], raw_request=d["raw"]))
+                          dict(engine="H", seed=sd, n_requests=n_req, request_index=d["n"], raw_request=d["raw"], server_stderr=r.get("stderr_tail", "")))
         for n in r["not_live"]:
             ctx.violation(f"server no longer answers GET /version after request #{n}", dict(engine="H", seed=sd, n_requests=n_req, request_index=n))
         if r["model_rc"] != 0 and first_mismatch is None:
